@@ -20,7 +20,7 @@ def sh(cmd, cwd=None, env=None):
 
 
 def main():
-    ids = [a for a in sys.argv[1:] if not a.startswith('--')] or sorted(os.listdir(os.path.join(ROOT, 'seeded')))
+    ids = [a for a in sys.argv[1:] if not a.startswith('--')] or sorted(d_ for d_ in os.listdir(os.path.join(ROOT, 'seeded')) if os.path.isdir(os.path.join(ROOT, 'seeded', d_)))
     tmp = tempfile.mkdtemp(prefix='seedwt_')
     wt = os.path.join(tmp, 'wt')
     rc, o = sh('git -C /repo worktree add -q --detach %s HEAD' % wt)
@@ -60,7 +60,16 @@ def main():
     finally:
         sh('git -C /repo worktree remove --force %s' % wt)
         shutil.rmtree(tmp, ignore_errors=True)
-    json.dump(summary, open(os.path.join(ROOT, 'seeded', 'SUMMARY.json'), 'w'), indent=1)
+    sp = os.path.join(ROOT, 'seeded', 'SUMMARY.json')
+    if len(ids) < len([d_ for d_ in os.listdir(os.path.join(ROOT, 'seeded')) if os.path.isdir(os.path.join(ROOT, 'seeded', d_))]):
+        # a partial run: keep the entries of the changes that were not re-run
+        try:
+            old = json.load(open(sp))
+        except Exception:
+            old = {}
+        old.update(summary)
+        summary = old
+    json.dump(summary, open(sp, 'w'), indent=1, sort_keys=True)
     missed = [k for k, v in summary.items() if isinstance(v, dict) and not v['detected']]
     print('missed:', missed)
     return 0
